@@ -119,6 +119,9 @@ let run toks =
   | ["length"; a] -> sz (bintLength (pbint a))
   | ["bit"; a; n] -> sb (bintBit (pbint a) (pz n))
   | ["shift"; a; n] -> sbint (bintShift (pbint a) (pz n))
+  | ["shiftrem"; a; n] ->
+      let a = pbint a and n = pz n in
+      if shiftrem_defined a n then sbint (bintShiftRem a n) else "undefined"
   | ["tostr"; a] -> (match bintToString (pbint a) with Some s -> st s | None -> "none")
   | ["scan"; s] -> let (b, rest) = bintScanFrString (pt s) in sbint b ^ " " ^ st rest
   | ["rscan"; s] -> let (b, rest) = bintRadixScanFrString (pt s) in sbint b ^ " " ^ st rest
@@ -130,6 +133,7 @@ let run toks =
   | ["frplacev"; n; l] -> sbint (bintFrPlacev (pb n) (pl l))
   | ["frplacevs"; n; l] -> sbint (bintFrPlacevS (pb n) (pl l))
   | ["toplacevs"; a] -> sl (bintToPlacevS (pbint a))
+  | ["rtplacevs"; a] -> let a = pbint a in sbint (bintFrPlacevS (bintIsNeg a) (bintToPlacevS a))
   | ["norm"; a] -> let a = pbint a in sb (normb a) ^ " " ^ sz (val0 a)
   | _ -> "badop"
 
